@@ -147,6 +147,9 @@ Proof.
     destruct args as [|o [|f [|? ?]]]; try apply dle_refl.
     destruct (is_func f 2); [|apply dle_refl]. destruct o; try apply dle_refl.
     apply dle_bind; [apply merge_app_dle|intros; apply dle_refl].
+  - (* visit *)
+    destruct args as [|i [|f [|? ?]]]; try apply dle_refl. destruct (is_func f 2); [|apply dle_refl].
+    apply fold_app_dle.
 Qed.
 
 Lemma run_method_dle rv m args : dle (run_method app1 rv m args) (run_method app2 rv m args).
